@@ -9,6 +9,8 @@
                "B" blank                      "C" own-line // comment        "G" own-line // +t=v tag line
                "K" own-line /* block */       "D" declaration                "T" declaration // trailing
                "M" two-name declaration // trailing   (a plain declaration where the context has none)
+               "X" a declaration that spans several source lines, with a // trailing comment after its LAST line
+               "E" an embedded struct field // trailing   (a declaration // trailing outside struct bodies)
            inside one of the contexts top (ungrouped type/const/var), type(...), const(...), var(...), struct{...}.
            Doc(d)     = the maximal run of own-line comment lines ending directly above d (never the trailing
                         comment of the declaration on the previous line), split into tag values and other lines;
@@ -60,8 +62,11 @@ DesignPartition(lines, markers) ==
 
 (* ------------------------------------------------------------------ part 2: attribution *)
 IsComment(k) == k \in {"C", "G", "K"}
-IsDecl(k) == k \in {"D", "T", "M"}
-HasTrailing(k) == k \in {"T", "M"}
+IsDecl(k) == k \in {"D", "T", "M", "X", "E"}
+HasTrailing(k) == k \in {"T", "M", "X", "E"}
+(* where the trailing comment of a declaration spanning several lines belongs is not said by the statement ("on the declaration's
+   own line"): Comment is not judged for X, only that the comment is never the NEXT declaration's documentation *)
+CommentJudged(k) == k # "X"
 
 RECURSIVE GroupStart(_, _)     \* first line of the maximal comment run that ends at line i (i + 1 if there is none)
 GroupStart(lay, i) == IF i >= 1 /\ IsComment(lay[i]) THEN GroupStart(lay, i - 1) ELSE i + 1
